@@ -128,3 +128,98 @@ theorem cbOpen_length_cbOpenOp (C : Cfg) (s : St) (c : Nat) : (cbOpenOp C s c).c
     · exact cbOpen_length_disconOpen C s' d
 
 end Relsad.Control
+
+namespace Relsad.Control
+
+/-! ### frame lemmas: which operations touch the breaker vector -/
+
+theorem cbOpen_lineDisconnect (s : St) (l : Nat) : (lineDisconnect s l).cbOpen = s.cbOpen := rfl
+theorem cbOpen_lineConnect (s : St) (l : Nat) : (lineConnect s l).cbOpen = s.cbOpen := rfl
+theorem cbOpen_disconOpen (C : Cfg) (s : St) (d : Nat) : (disconOpen C s d).cbOpen = s.cbOpen := rfl
+theorem cbOpen_disconClose (C : Cfg) (s : St) (d : Nat) : (disconClose C s d).cbOpen = s.cbOpen := rfl
+
+theorem cbOpen_foldl_eq {α : Type} (f : St → α → St) (hf : ∀ s a, (f s a).cbOpen = s.cbOpen) (l : List α) (s : St) :
+    (l.foldl f s).cbOpen = s.cbOpen := by
+  induction l generalizing s with
+  | nil => rfl
+  | cons a as ih => simp only [List.foldl_cons]; rw [ih, hf]
+
+/-- a breaker operation changes the breaker vector at its own index only -/
+theorem cbOpenOp_frame (C : Cfg) (s : St) (c : Nat) : (cbOpenOp C s c).cbOpen = s.cbOpen.set c true := by
+  unfold cbOpenOp
+  simp only [cbOpen_lineDisconnect]
+  rw [cbOpen_foldl_eq]
+  intro s' d; split_ifs
+  · rfl
+  · exact cbOpen_disconOpen C s' d
+
+theorem cbCloseOp_frame (C : Cfg) (s : St) (c : Nat) : (cbCloseOp C s c).cbOpen = s.cbOpen.set c false := by
+  unfold cbCloseOp
+  simp only [cbOpen_lineConnect]
+  rw [cbOpen_foldl_eq]
+  intro s' d; split_ifs
+  · exact cbOpen_disconClose C s' d
+  · rfl
+
+/-- reconnecting a section never operates a breaker -/
+theorem secConnectManually_cbOpen (C : Cfg) (s : St) (k : Nat) : (secConnectManually C s k).cbOpen = s.cbOpen := by
+  unfold secConnectManually
+  simp only
+  rw [cbOpen_foldl_eq, cbOpen_foldl_eq]
+  · intro s' l
+    cases (C.lines.getD l default).cb with
+    | none => rfl
+    | some c => simp only; split_ifs <;> rfl
+  · intro s' sw
+    cases sw with
+    | breaker c => rfl
+    | discon d =>
+      simp only
+      split_ifs
+      · rfl
+      · cases (C.lines.getD (C.disconLine.getD d 0) default).cb with
+        | none => rfl
+        | some c => simp only; split_ifs <;> rfl
+
+/-- the line check of a controller never operates a breaker -/
+theorem checkLinesManually_cbOpen (C : Cfg) (s : St) (n : Nat) : (checkLinesManually C s n).cbOpen = s.cbOpen := by
+  unfold checkLinesManually
+  simp only
+  rw [cbOpen_foldl_eq, cbOpen_foldl_eq]
+  · intro s' k
+    split_ifs
+    · rw [cbOpen_foldl_eq]
+      intro s'' l; rfl
+    · rfl
+  · intro s' k
+    split_ifs
+    · rfl
+    · simp only; exact secConnectManually_cbOpen C s' k
+
+/-! ### constant vectors -/
+
+theorem set_map_const {α β : Type} (xs : List α) (i : Nat) (c : β) :
+    (xs.map (fun _ => c)).set i c = xs.map (fun _ => c) := by
+  induction xs generalizing i with
+  | nil => simp
+  | cons x xs ih => cases i with
+    | zero => simp
+    | succ i => simp [ih]
+
+theorem gb_map_const {α : Type} (xs : List α) (i : Nat) : gb (xs.map (fun _ => false)) i = false := by
+  unfold gb
+  induction xs generalizing i with
+  | nil => simp
+  | cons x xs ih => cases i with
+    | zero => simp
+    | succ i => simpa using ih i
+
+theorem gr_map_const {α : Type} (xs : List α) (i : Nat) : gr (xs.map (fun _ => (0 : ℚ))) i = 0 := by
+  unfold gr
+  induction xs generalizing i with
+  | nil => simp
+  | cons x xs ih => cases i with
+    | zero => simp
+    | succ i => simpa using ih i
+
+end Relsad.Control
